@@ -453,6 +453,8 @@ def cli(argv=None, mode='output'):
                     export_header=args.verbose,
                     export_varnames=args.varnames,
                     extra_text=extra_text)
+        # a write error (e.g. no space left) must show up now, not at exit
+        args.output.flush()
 
     return None
 
@@ -474,11 +476,17 @@ def main():
         print(e, file=sys.stderr)
         sys.exit(-1)
 
-    except (BrokenPipeError, IOError):
+    except BrokenPipeError:
         # avoid errors when stdout is closed before the end of the
         # program (i.e. piping into a command line which does
         # not work.)
         pass
+
+    except IOError as e:
+        # any other failure while writing (disk full, ...) is an error
+        error_msg("ERROR: cannot write the output: {}".format(e),
+                  prefix='* ')
+        sys.exit(-1)
 
     # avoid signaling BrokenPipeError as whatnot
     sys.stderr.close()
